@@ -657,6 +657,17 @@ func genCorpus() {
 		}
 	}
 
+	// --- I/O failure: derived.gen.go is a non-empty directory (os.Create / os.Remove fail): a message, nothing touched
+	for _, v := range []struct{ what, src string }{
+		{"derived.gen.go is a directory, content to write", good},
+		{"derived.gen.go is a directory, nothing to write", "package PKG\n\nfunc X() int { return 1 }\n"},
+		{"derived.gen.go is a directory, a call to rename", good + "\nfunc Dup(a, b *S) bool { return deriveEqualAgain(a, b) }\n"},
+	} {
+		files := map[string]string{"u.go": v.src, "derived.gen.go/keep.txt": "x\n"}
+		modes := bystanders(files)
+		add(caseT{Kind: "generr", What: v.what, Gofmt: true}, files, modes)
+	}
+
 	// --- a directory that also holds an external test package
 	{
 		xNo := "package PKG_test\n\nimport \"testing\"\n\nfunc TestX(t *testing.T) {}\n"
